@@ -103,38 +103,35 @@ class BoomError(Exception):
     pass
 
 
-_BOOM = []
+_BOOM = {}
 
 
 def boom_class(ok=False):
     """A component whose stand-alone render always fails below its root (in a nested component's get_context_data);
-    with ok=True: a small component tree whose stand-alone render succeeds."""
-    if ok:
-        if len(_BOOM) < 2:
-            boom_class()
-            from django_components import Component
-            from django_components import registry as default_registry
+    with ok=True: a small component tree whose stand-alone render succeeds.  Both are created by build_classes(), i.e.
+    before any task runs: creating them lazily inside get_context_data would be a race of the HARNESS under C07."""
+    return _BOOM["ok" if ok else "fail"]
 
-            leaf = type("GenOkLeaf", (Component,), {"template": "<b>ok</b>", "__module__": "sim.generated"})
-            default_registry.register("genokleaf", leaf)
-            _BOOM.append(type("GenOk", (Component,), {
-                "template": '{% component "genokleaf" / %}<i>{% component "genokleaf" / %}</i>', "__module__": "sim.generated"}))
-        return _BOOM[1]
-    if not _BOOM:
-        from django_components import Component
-        from django_components import registry as default_registry
 
-        def inner_gcd(self, **kwargs):
-            raise BoomError("nested stand-alone render fails")
+def _build_boom():
+    if _BOOM:
+        return
+    from django_components import Component
+    from django_components import registry as default_registry
 
-        inner = type("GenBoomInner", (Component,), {"template": "never", "get_context_data": inner_gcd,
-                                                      "__module__": "sim.generated"})
-        default_registry.register("genboominner", inner)
-        outer = type("GenBoom", (Component,), {
-            "template": '<div>{% component "genboominner" / %}</div><span>{% component "genboominner" / %}</span>',
-            "__module__": "sim.generated"})
-        _BOOM.append(outer)
-    return _BOOM[0]
+    def inner_gcd(self, **kwargs):
+        raise BoomError("nested stand-alone render fails")
+
+    inner = type("GenBoomInner", (Component,), {"template": "never", "get_context_data": inner_gcd,
+                                                  "__module__": "sim.generated"})
+    default_registry.register("genboominner", inner)
+    _BOOM["fail"] = type("GenBoom", (Component,), {
+        "template": '<div>{% component "genboominner" / %}</div><span>{% component "genboominner" / %}</span>',
+        "__module__": "sim.generated"})
+    leaf = type("GenOkLeaf", (Component,), {"template": "<b>ok</b>", "__module__": "sim.generated"})
+    default_registry.register("genokleaf", leaf)
+    _BOOM["ok"] = type("GenOk", (Component,), {
+        "template": '{% component "genokleaf" / %}<i>{% component "genokleaf" / %}</i>', "__module__": "sim.generated"})
 
 
 def build_classes(prog, registry=None, module="sim.generated"):
@@ -144,6 +141,8 @@ def build_classes(prog, registry=None, module="sim.generated"):
 
     reg = registry or default_registry
     classes = {}
+    if any(cd.get("tryfail") or cd.get("nested_ok") for cd in prog["comps"]):
+        _build_boom()
     for i, cd in reversed(list(enumerate(prog["comps"]))):
         name = cd["name"]
         src = emit_nodes(cd["tmpl"], name if cd.get("echo_id") else None)
